@@ -1,4 +1,5 @@
 //! Handy routines for managing concurrency.
+#![allow(unexpected_cfgs)]
 
 pub(crate) mod bitset;
 pub(crate) mod concurrent_vec;
@@ -8,6 +9,8 @@ pub mod parallel_writer;
 pub(crate) mod resettable_oncelock;
 mod shared_arena;
 pub mod threadpool;
+#[cfg(egglog_verif)]
+pub mod verif;
 use arc_swap::{ArcSwap, Guard};
 
 pub use bitset::BitSet;
@@ -100,9 +103,13 @@ impl<T> DerefMut for MutexWriter<'_, T> {
 
 impl<T> Drop for MutexWriter<'_, T> {
     fn drop(&mut self) {
+        #[cfg(egglog_verif)]
+        crate::verif::point(14);
         self.lock
             .token
             .store(Arc::new(ReadToken::ReadOk(TriggerWhenDone::default())));
+        #[cfg(egglog_verif)]
+        crate::verif::point(15);
         self.unblock.notify();
     }
 }
@@ -132,6 +139,8 @@ impl<T> ReadOptimizedLock<T> {
     pub fn read(&self) -> MutexReader<'_, T> {
         loop {
             let guard = self.token.load();
+            #[cfg(egglog_verif)]
+            crate::verif::point(10);
             match guard.as_ref() {
                 ReadToken::ReadOk(..) => {
                     // This fence ensures that we see the outcome of any
@@ -157,6 +166,8 @@ impl<T> ReadOptimizedLock<T> {
     pub fn lock(&self) -> MutexWriter<'_, T> {
         loop {
             let guard = self.token.load();
+            #[cfg(egglog_verif)]
+            crate::verif::point(11);
             match guard.as_ref() {
                 ReadToken::ReadOk(n) => {
                     let unblock_waiters = Arc::new(Notification::default());
@@ -167,9 +178,13 @@ impl<T> ReadOptimizedLock<T> {
                         // CAS failed, retry.
                         continue;
                     }
+                    #[cfg(egglog_verif)]
+                    crate::verif::point(12);
                     mem::drop((guard, prev));
                     // Do an RCU to trigger an underlying "wait for readers" operation.
                     self.token.rcu(|x| x.clone());
+                    #[cfg(egglog_verif)]
+                    crate::verif::point(13);
                     // NB: this wait not be necessary... it isn't clear to me if
                     // this is documented behavior of the crate.
                     readers_done.wait();
